@@ -135,7 +135,37 @@ pub fn run(m128: bool, seed: u64, steps: usize, judge: Judge, prefix: &str, ctx:
             page[off] = [0xFBu8, 0xFB, 0x76, 0x00, 0xF3][k % 5];
         }
     }
+    // 16-bit direct accesses on the borders between the 16 KiB windows
+    for p in 0..ram_pages(m128) {
+        let page = e.verif_ram_page(p);
+        for k in 0..60 {
+            let off = (k * 263 + (seed as usize % 251)) % (16384 - 8);
+            let b = [0x3FFFu16, 0x7FFF, 0xBFFF, 0xFFFF][k % 4];
+            let t: [u8; 4] = match k % 3 {
+                0 => [0x2A, b as u8, (b >> 8) as u8, 0x00],
+                1 => [0x22, b as u8, (b >> 8) as u8, 0x00],
+                _ => [0xED, [0x4Bu8, 0x43, 0x5B, 0x53][k % 4], b as u8, (b >> 8) as u8],
+            };
+            page[off..off + 4].copy_from_slice(&t);
+        }
+    }
     e.verif_refresh_screen();
+    // host-side devices that must not change time keeping: an I/O extender claiming a few ports, a tape
+    // playing in the background
+    if (seed >> 48) & 1 == 1 {
+        ctx.probe("lockstep_extender");
+        let mut r2 = Rng::new(seed ^ 0xE77);
+        let claimed: Vec<u16> = (0..8).map(|_| r2.u16() | 0x0002).collect();
+        e.set_io_extender(crate::host::SimExtender { claimed, log: vec![], read_xor: r2.u8() });
+    }
+    if (seed >> 49) & 1 == 1 {
+        ctx.probe("lockstep_tape_playing");
+        let blk = zxref::tape::std_block(0x00, &[0x55u8; 200]);
+        let img = zxref::tape::make_tap(&[blk.clone(), blk]);
+        if e.load_tape(rustzx_core::host::Tape::Tap(crate::host::AnyAsset::Sim(crate::host::SimAsset::plain(img)))).is_ok() {
+            e.play_tape();
+        }
+    }
     for r in 0..m.roms.len() {
         m.roms[r].copy_from_slice(e.verif_rom_page(r as u8));
     }
